@@ -1,6 +1,8 @@
 package harness
 
 import (
+	"strings"
+	"verifharness/props"
 	"encoding/json"
 	"fmt"
 	"os"
@@ -10,6 +12,42 @@ import (
 )
 
 func TestDbg(t *testing.T) {
+	if g := os.Getenv("DBG_GEN"); g != "" {
+		// "C11:1:6984" -> generate and execute several times, diff the event logs
+		var id string
+		var seed uint64
+		var idx int
+		fmt.Sscanf(strings.ReplaceAll(g, ":", " "), "%s %d %d", &id, &seed, &idx)
+		p := props.Get(id)
+		var first []string
+		for rep := 0; rep < 40; rep++ {
+			out := sim.Execute(t, GenScenario(p, "quick", seed, idx), true)
+			if rep == 0 {
+				first = out.W.Log.Lines
+				fmt.Println("hash", out.LogHash, "lines", len(first))
+				continue
+			}
+			lines := out.W.Log.Lines
+			for i := 0; i < len(first) || i < len(lines); i++ {
+				a, b := "", ""
+				if i < len(first) {
+					a = first[i]
+				}
+				if i < len(lines) {
+					b = lines[i]
+				}
+				if a != b {
+					fmt.Printf("rep %d differs at line %d:\n  %s\n  %s\n", rep, i, a, b)
+					for k := max(0, i-12); k < i; k++ {
+						fmt.Println("   ", first[k])
+					}
+					return
+				}
+			}
+		}
+		fmt.Println("no difference in 40 executions")
+		return
+	}
 	f := os.Getenv("DBG_REPLAY")
 	if f == "" {
 		t.Skip()
